@@ -300,6 +300,11 @@ tcp_send(void *arg, nni_aio *aio)
 		nni_mtx_unlock(&c->mtx);
 		return;
 	}
+	if (c->closed) {
+		nni_aio_finish_error(aio, NNG_ECLOSED);
+		nni_mtx_unlock(&c->mtx);
+		return;
+	}
 	nni_aio_list_append(&c->writeq, aio);
 
 	if (nni_list_first(&c->writeq) == aio) {
@@ -322,6 +327,11 @@ tcp_recv(void *arg, nni_aio *aio)
 	nni_aio_reset(aio);
 	nni_mtx_lock(&c->mtx);
 	if (!nni_aio_start(aio, tcp_cancel, c)) {
+		nni_mtx_unlock(&c->mtx);
+		return;
+	}
+	if (c->closed) {
+		nni_aio_finish_error(aio, NNG_ECLOSED);
 		nni_mtx_unlock(&c->mtx);
 		return;
 	}
